@@ -5,7 +5,6 @@ import (
 	"strconv"
 	"strings"
 	"testing"
-	"testing/synctest"
 	"time"
 
 	"github.com/buildbarn/bb-storage/pkg/blobstore/replication"
@@ -36,7 +35,7 @@ func runLimitOrQueue(t *testing.T, script []string, gen *hx.Rand) (*caseResult, 
 		res.fail("bad-script", "cfg")
 		return res, actual
 	}
-	synctest.Test(t, func(t *testing.T) {
+	bubble(t, res, func(t *testing.T) {
 		a := newArena()
 		w := &world{a: a, res: res, wasDone: map[int]bool{}, delivered: map[int]int{}}
 		clk := &fakeClock{}
